@@ -33,16 +33,20 @@ func (m *JCModel) Distance(seq1 []uint8, seq2 []uint8, weights []float64) (float
 	diff, total := countDiffs(seq1, seq2, m.selectedSites, weights, false)
 	diff = diff / total
 	b := 1. - 4.*diff/3.
+	if b < 0 {
+		// Saturation (p > 3/4): the distance is not defined, with or without gamma
+		return math.NaN(), nil
+	}
 	if m.gamma {
 		dist = .75 * m.alpha * (math.Pow(b, -1./m.alpha) - 1.)
 	} else {
 		dist = -.75 * math.Log(b)
 	}
-	if dist > 0 {
-		return dist, nil
-	} else {
+	if dist <= 0 {
+		// Rounding errors only: an undefined distance (NaN, no comparable site) is not 0
 		return 0, nil
 	}
+	return dist, nil
 }
 
 func (m *JCModel) InitModel(al align.Alignment, weights []float64, gamma bool, alpha float64) (err error) {
